@@ -977,6 +977,15 @@ func (d *Pegnetd) ApplyTransactionBlock(sqlTx *sql.Tx, eblock *factom.EBlock) er
 		} else if isReplay {
 			continue
 		}
+		// An entry that is already recorded (waiting in holding, rejected earlier, or a second copy in
+		// this block) is a copy of a known entry and has no further effect. Recording it again would
+		// violate the history and holding keys and make the block fail on every retry.
+		isRecorded, err := d.Pegnet.IsTransactionHistoryRecorded(sqlTx, txBatch.Entry.Hash)
+		if err != nil {
+			return err
+		} else if isRecorded {
+			continue
+		}
 		// At this point, we know that the transaction batch is valid and able to be executed.
 
 		if err = d.Pegnet.InsertTransactionHistoryTxBatch(sqlTx, blockorder, txBatch, eblock.Height); err != nil {
